@@ -462,11 +462,18 @@ func (s *Sched) choose(n, nfree int, kind uint8, from *Thread) (int, bool) {
 		// row (a thread choice, then the select choice of the thread picked)
 		k.a = mix(k.a, uint64(kind))
 		if old, seen := s.ex.memo[k]; seen && int(old) <= s.cost {
+			if s.ex.memoOwner != nil {
+				fmt.Fprintf(os.Stderr, "PRUNE at=%v owner=%v kind=%c\n  now:   %s\n  owner: %s\n", s.choices, s.ex.memoOwner[k], kind, s.describeState(), s.ex.memoDesc[k])
+			}
 			s.prunedAt = i
 			s.endFrom(StPruned, from, "")
 			return 0, false
 		}
 		s.ex.memo[k] = int32(s.cost)
+		if s.ex.memoOwner != nil {
+			s.ex.memoOwner[k] = append([]int(nil), s.choices...)
+			s.ex.memoDesc[k] = s.describeState()
+		}
 	}
 	s.points = append(s.points, Point{N: n, NFree: nfree, Kind: kind})
 	s.costAt = append(s.costAt, s.cost)
@@ -518,6 +525,20 @@ func (s *Sched) stateKey() key {
 	for _, h := range ts {
 		a = mix(a, h^0x7171)
 		b = mix(b, h)
+	}
+	// Timer fires are scheduler events, not thread events: what they wrote into a
+	// timer-fed channel is in no thread's hash until a thread touches the channel
+	// again, so those shadows are part of the key themselves.
+	cs := ts[:0]
+	for _, c := range s.chans {
+		if c.timerFed {
+			cs = append(cs, mix(mix(c.obj.id, c.obj.hb), uint64(len(c.buf))))
+		}
+	}
+	sort.Slice(cs, func(i, j int) bool { return cs[i] < cs[j] })
+	for _, h := range cs {
+		a = mix(a, h^0xc4a7)
+		b = mix(b, h+3)
 	}
 	var cid uint64
 	if s.cur != nil && !s.cur.done {
@@ -853,8 +874,19 @@ func Fail(oracle, keyDetail, msg string) {
 	s.viols = append(s.viols, Violation{Oracle: oracle, Key: oracle + ":" + keyDetail, Msg: msg})
 }
 
-// Clock returns the virtual clock in ns since the epoch of the execution.
-func Clock() int64 { return S.clock }
+// Clock returns the virtual clock in ns since the epoch of the execution. The
+// value read is folded into the calling thread's hash (what a thread has seen
+// of the clock is part of its state).
+func Clock() int64 {
+	s := S
+	if s == nil {
+		return 0
+	}
+	if !s.aborting && s.cur != nil {
+		s.cur.hb = mix(s.cur.hb, uint64(s.clock)^0x0b5e)
+	}
+	return s.clock
+}
 
 // ThreadName of the running thread.
 func ThreadName() string { return S.cur.Name }
@@ -902,4 +934,25 @@ func Touch(o *Obj, write bool, val uint64) {
 func Infra(msg string) {
 	fmt.Fprintln(os.Stderr, "vrt: infrastructure error:", msg)
 	os.Exit(2)
+}
+
+func (s *Sched) describeState() string {
+	var b strings.Builder
+	fmt.Fprintf(&b, "clock=%d cost=%d cur=%s |", s.clock, s.cost, s.cur.Name)
+	for _, t := range s.threads {
+		fmt.Fprintf(&b, " %s:%x:%s:done=%v", t.Name, t.hb&0xffff, kindNames[t.pkind], t.done)
+	}
+	b.WriteString(" | timers:")
+	for _, tm := range s.timers {
+		if tm.active {
+			fmt.Fprintf(&b, " %s@%d:%x", tm.name, tm.deadline, tm.obj.hb&0xffff)
+		}
+	}
+	b.WriteString(" | chans:")
+	for _, c := range s.chans {
+		if len(c.buf) > 0 || c.closed {
+			fmt.Fprintf(&b, " %s:len=%d:closed=%v:%v", c.obj.Name, len(c.buf), c.closed, c.buf)
+		}
+	}
+	return b.String()
 }
